@@ -24,12 +24,14 @@ from vlib.hx import Res, rng_for
 
 PROPERTY = "C25"
 RULE = ("exhaustive over every element key of the tables loaded by LobatoParametrization(), KirklandParametrization() and "
-        "PengParametrization() (one case per parametrization x element); radii log-spaced in [r_min, r_max] plus seeded "
+        "PengParametrization() / PengParametrization('peng_low.json') (one case per parametrization x element); radii log-spaced in [r_min, r_max] plus seeded "
         "uniform extras, spatial frequencies linear in [0, k_max] plus seeded extras; transform clauses at the stated "
         "sample points. Every case is non-trivial (functions are non-zero); distinct = (parametrization, element)")
 BOUNDS = {
-    "parametrizations": ["lobato", "kirkland", "peng"],
-    "elements": "all keys of each table (103 / 103 / 98)",
+    "parametrizations": ["lobato", "kirkland", "peng", "peng_low"],
+    "elements": "all keys of each table (103 / 103 / 98 / 98); peng = PengParametrization() (peng_high.json), peng_low = "
+                "PengParametrization('peng_low.json'); peng_ionic.json holds ions (keys like 'Li+'), which are not elements "
+                "and are not reachable through get_function for positive charge - not in the domain",
     "r_range_A": [1e-3, 12.0], "k_range_invA": [0.0, 12.0],
     "grid_points": {"quick": 300, "thorough": 2000},
     "hankel_k": {"quick": [0.0, 0.05, 0.3, 0.9, 2.0, 4.0], "thorough": [0.0, 0.02, 0.05, 0.1, 0.3, 0.6, 0.9, 1.5, 2.0, 3.0, 4.0, 6.0]},
@@ -40,10 +42,11 @@ EXHAUSTIVE = False   # elements exhaustive, radii / frequencies sampled
 ASSUMPTIONS = [
     "C25: 'decreasing' is strict on grids whose neighbouring points differ by >= 0.3 %; values are evaluated by abTEM with "
     "float32 coefficients",
-    "C25: transform identities hold to 2e-4 relative to the value at the smallest sampled argument of the same function "
-    "(float32 coefficients and float32 pi inside the kernels give ~1e-6; quadrature error < 1e-8, checked against the "
-    "closed forms of a Yukawa and a Gaussian in the self-test of the oracle)",
-    "C25: integrals are truncated at 60 A (all tabulated potentials are < 1e-12 of their 1 A value there)",
+    "C25: transform identities are compared pointwise: |abTEM - oracle| <= 5e-4*|oracle| + 1e-8*max|oracle| (observed on "
+    "the unchanged tree: <= 1.1e-4 for Lobato at k = 6 1/A, where float32 coefficients of opposite sign cancel, <= 1e-6 "
+    "elsewhere); the quadratures reproduce the closed forms of a Yukawa and of a Gaussian term to 1e-14",
+    "C25: integrals are truncated at 60 A; every tabulated term is negligible there except the third Gaussian of He in "
+    "the Kirkland table (amplitude 1.7e-11 V, width ~60 A), which stays below the absolute floor",
 ]
 CONTRACTS = [
     "abtem/parametrizations/__init__.py:Parametrization.get_function",
@@ -58,6 +61,8 @@ CONTRACTS = [
 def _param(name):
     from abtem.parametrizations import KirklandParametrization, LobatoParametrization, PengParametrization
 
+    if name == "peng_low":
+        return PengParametrization("peng_low.json")
     return {"lobato": LobatoParametrization, "kirkland": KirklandParametrization, "peng": PengParametrization}[name]()
 
 
@@ -126,16 +131,18 @@ def _monotone(name, x, f, what):
     return Res(name, fin and pos and dec, f"{len(x)} points of {what} in [{x[0]:.4g}, {x[-1]:.4g}]: {msg}", True)
 
 
-def _agree(name, got, ref, xs, what, rtol=2e-4):
+def _agree(name, got, ref, xs, what, rtol=5e-4, afloor=1e-8):
+    """Pointwise: |abTEM - oracle| <= rtol*|oracle| + afloor*max|oracle|."""
     got = np.asarray(got, dtype=np.float64)
     ref = np.asarray(ref, dtype=np.float64)
     scale = float(np.abs(ref).max())
     err = np.abs(got - ref)
-    i = int(np.argmax(err))
-    return Res(name, bool(np.all(np.isfinite(got)) and err[i] <= rtol * scale),
-               f"{what}: max deviation {err[i]:.3e} at {xs[i]:.4g} (abTEM {got[i]:.8g}, oracle {ref[i]:.8g}); values at "
-               f"{[float(f'{v:.4g}') for v in xs]} abTEM {[float(f'{v:.6g}') for v in got]} oracle "
-               f"{[float(f'{v:.6g}') for v in ref]}", scale > 0)
+    excess = err - (rtol * np.abs(ref) + afloor * scale)
+    i = int(np.argmax(excess))
+    return Res(name, bool(np.all(np.isfinite(got)) and excess[i] <= 0),
+               f"{what}: worst point {xs[i]:.4g}: abTEM {got[i]:.8g}, oracle {ref[i]:.8g} (rel. dev. "
+               f"{err[i] / max(abs(ref[i]), 1e-300):.3e}); values at {[float(f'{v:.4g}') for v in xs]} abTEM "
+               f"{[float(f'{v:.6g}') for v in got]} oracle {[float(f'{v:.6g}') for v in ref]}", scale > 0)
 
 
 def run_case(case):
@@ -178,5 +185,5 @@ def run_case(case):
     out.append(_agree(f"C25/{name}/scattering-factor-equals-3d-ft-of-potential", f_k, kappa * _ft3(v_x, ks, x, w), ks,
                       "f(k^2) vs kappa*4*pi*Int V(r) sinc(2 k r) r^2 dr"))
     out.append(_agree(f"C25/{name}/projected-sf-equals-central-slice-of-sf", fp_k, f_k / kappa, ks,
-                      "f_p(k^2) vs f(k^2)/kappa", rtol=2e-5))
+                      "f_p(k^2) vs f(k^2)/kappa"))
     return out
